@@ -244,7 +244,7 @@ void ResolutionProof::printSMT2(std::ostream & out, CoreSMTSolver & s, THandler 
     cache.insert( cr );
   }
 
-  out << "cls_0"  << '\n';
+  out << "cls_" << CRef_Undef << '\n'; // the empty clause is bound under the undefined clause reference
 
   for ( int i = 0 ; i < nof_lets ; i ++ )
     out << ")";
